@@ -682,7 +682,7 @@ func runCase(c Case, known func(string) bool) *h.Outcome {
 	return o
 }
 
-const rule = "C03-style honest histories (payments in both directions, sub-channel open/pay/close) between an honest, watching party H and an adversary M that deviates only by registering, directly on the reference ledger, one of the fully signed ledger-channel transactions it really obtained (any version 0..latest, with the sub-channel transaction of that time or an older one if a sub-channel is locked in it): between two updates, or while an update is in flight - the bus holds back M's acceptance of H's proposal, or M's own proposal, until the registration is on the ledger. The harness waits for quiescence (logical clock unchanged), then both settle. Oracle: (i) at quiescence, before the challenge period ends, the registered version of the ledger channel and of every sub-channel locked in H's newest state is >= the newest state H's persister enabled; (ii) after settlement H's account grew by at least its balance in that newest state (incl. its sub-channel balance); (iii) ledger conservation. non-trivial = the registered version is older than H's newest and H's balance in the newest state is higher for some asset"
+const rule = "C03-style honest histories (payments in both directions, sub-channel open/pay/close) between an honest, watching party H and an adversary M that deviates only by registering, directly on the reference ledger, one of the fully signed ledger-channel transactions it really obtained (any version 0..latest, with the sub-channel transaction of that time or an older one if a sub-channel is locked in it): between two updates, or while an update is in flight - the bus holds back M's acceptance of H's proposal, or M's own proposal, until the registration is on the ledger. The harness waits for quiescence (logical clock unchanged), then both settle. Oracle: (i) at quiescence, before the challenge period ends, the registered version of the ledger channel and of every sub-channel locked in H's newest state is >= the newest state H's persister enabled; (ii) after settlement H's account grew by at least its balance in that newest state (incl. its sub-channel balance); (iii) ledger conservation. The honest party repeats a failed Settle up to three times and in a quarter of the cases calls Watch a second time on its watched sub-channel (refused). non-trivial = the registered version is older than H's newest and H's balance in the newest state is higher for some asset"
 
 func TestOutdatedRegistration(t *testing.T) {
 	rec := h.Begin("C04", "")
